@@ -798,6 +798,8 @@ qb_ipcs_dispatch_connection_request(int32_t fd, int32_t revents, void *data)
 		res = -EINVAL;
 		goto dispatch_cleanup;
 	}
+	/* msg_process may disconnect (and so release) the connection */
+	qb_ipcs_connection_ref(c);
 
 	if (revents & POLLNVAL) {
 		qb_util_log(LOG_DEBUG, "NVAL conn (%s)", c->description);
@@ -861,7 +863,14 @@ qb_ipcs_dispatch_connection_request(int32_t fd, int32_t revents, void *data)
 		if (res > 0) {
 			avail--;
 		}
-	} while (avail > 0 && res > 0 && !c->fc_enabled);
+	} while (avail > 0 && res > 0 && !c->fc_enabled &&
+		 c->state == QB_IPCS_CONNECTION_ESTABLISHED);
+
+	if (c->state != QB_IPCS_CONNECTION_ESTABLISHED) {
+		/* disconnected from inside msg_process */
+		res = -ESHUTDOWN;
+		goto dispatch_cleanup;
+	}
 
 	if (c->service->needs_sock_for_poll && recvd > 0) {
 		res2 = qb_ipc_us_recv(&c->setup, bytes, recvd, -1);
@@ -893,6 +902,7 @@ dispatch_cleanup:
 	if (res != 0) {
 		qb_ipcs_disconnect(c);
 	}
+	qb_ipcs_connection_unref(c);
 	return res;
 }
 
